@@ -104,7 +104,7 @@ func C17(c *ev.Ctx) {
 	cfg := fmt.Sprintf("CONSTANTS\n Pkgs <- MCPkgs\n Class <- MCClass\n PatternLists <- MCPatterns\n D = %d\nINIT Init\nNEXT Next\nINVARIANT EmitHist\n", depth)
 	_ = os.WriteFile(filepath.Join(dir, "SimGooseCmd.cfg"), []byte(cfg), 0644)
 	sr := tlc.Run{Dir: dir, Module: "MCGooseCmd", Cfg: "SimGooseCmd.cfg", Workers: 1, Timeout: 10 * time.Minute,
-		Args: []string{"-simulate", fmt.Sprintf("num=%d", nb), "-depth", fmt.Sprint(depth + 1), "-seed", fmt.Sprint(c.Seed)}}.Do()
+		Args: []string{"-simulate", fmt.Sprintf("num=%d", nb*12), "-depth", fmt.Sprint(depth + 1), "-seed", fmt.Sprint(c.Seed)}}.Do()
 	c.AddTLC(sr)
 	if sr.TLCError || len(sr.Prints) == 0 {
 		c.Inconclusive("simulation produced no behaviours:\n%s", tlc.Tail(sr.Out, 20))
@@ -112,8 +112,41 @@ func C17(c *ev.Ctx) {
 	}
 	rr := rng(c, 17)
 	rr.Shuffle(len(sr.Prints), func(i, j int) { sr.Prints[i], sr.Prints[j] = sr.Prints[j], sr.Prints[i] })
+	// prefer sequences that re-translate a package after its source was edited (translate p; edit p; translate p)
+	score := func(p string) int {
+		var h []c17Inv
+		if json.Unmarshal([]byte(p), &h) != nil {
+			return 0
+		}
+		sc := 0
+		translated, edited := map[string]bool{}, map[string]bool{}
+		for _, e := range h {
+			switch e.Op {
+			case "invoke":
+				for _, pk := range e.Pats {
+					if translated[pk] && edited[pk] && (e.Ign || pk == "goodffi") {
+						sc += 3
+					}
+					translated[pk] = true
+				}
+				if e.RelOut {
+					sc++
+				}
+			case "edit":
+				if translated[e.P] {
+					edited[e.P] = true
+				}
+			}
+		}
+		return sc
+	}
+	sort.SliceStable(sr.Prints, func(i, j int) bool { return score(sr.Prints[i]) > score(sr.Prints[j]) })
 	if len(sr.Prints) > nb {
-		sr.Prints = sr.Prints[:nb]
+		// two thirds by score, the rest as they come
+		keep := append([]string{}, sr.Prints[:nb*2/3]...)
+		rest := sr.Prints[nb*2/3:]
+		rr.Shuffle(len(rest), func(i, j int) { rest[i], rest[j] = rest[j], rest[i] })
+		sr.Prints = append(keep, rest[:nb-len(keep)]...)
 	}
 	goose := filepath.Join(c.Bin, "goose")
 	root := filepath.Join(c.Scratch, "c17mod")
